@@ -625,7 +625,7 @@ func codeSources(f *ssa.Function, sinkNames ...string) (src []string, versions [
 	}
 	for _, i := range ssau.Ifs(f) {
 		if b, ok := i.Cond.(*ssa.BinOp); ok && (b.Op == token.EQL || b.Op == token.NEQ) {
-			if methodCallNamed(b.X, "PayloadVersion") {
+			if methodCallNamed(b.X, "PayloadVersion") || ssau.IsFieldOf(ssau.Unwrap(b.X), "", "payloadVersion") {
 				if k, ok := b.Y.(*ssa.Const); ok {
 					ver[b.Op.String()+k.Value.ExactString()] = true
 				}
